@@ -58,6 +58,7 @@
 //! # }
 //! ```
 
+use crate::node::SharedNode;
 use crate::config::Config;
 use crate::port::port_name::PortName;
 use crate::service::SharedServiceState;
@@ -128,6 +129,9 @@ pub struct Listener<Service: service::Service> {
     // Otherwise the process might crash during cleanup, has already removed the tag but other resources
     // are still existing. This would make a cleanup from another process impossible.
     port_tag: Service::StaticStorage,
+    // Keeps the node alive until the port tag is removed. If the port is the last owner of the
+    // node, the node could otherwise not remove its directory since it still contains the tag.
+    _shared_node: SharedNode<Service>,
 }
 
 unsafe impl<Service: service::Service> Send for Listener<Service> where
@@ -171,6 +175,7 @@ impl<Service: service::Service> Abandonable for Listener<Service> {
         };
         unsafe { SharedServiceState::abandon_in_place(NonNull::from_mut(&mut this.service_state)) };
         unsafe { Service::StaticStorage::abandon_in_place(NonNull::from_mut(&mut this.port_tag)) };
+        unsafe { SharedNode::abandon_in_place(NonNull::from_mut(&mut this._shared_node)) };
     }
 }
 
@@ -206,6 +211,7 @@ impl<Service: service::Service> Listener<Service> {
                         "{msg} since the port tag, that is required for cleanup, could not be created. [{e:?}]");
             }
         };
+        let shared_node = service.shared_node().clone();
 
         let event_name = event_concept_name(&listener_id);
         let event_config = event_config::<Service>(service.shared_node().config());
@@ -246,6 +252,7 @@ impl<Service: service::Service> Listener<Service> {
 
         Ok(Self {
             port_tag,
+            _shared_node: shared_node,
             service_state: service.clone(),
             dynamic_listener_handle: handle,
             listener_details: unsafe { &*details },
